@@ -397,7 +397,13 @@ def gen_case(rng, i):
     par = [l for l in lines if parallel(l)]
     dropped = set(l.split('\t')[1] for l in lines if degenerate(l) or l in par)
     lines = [l for l in lines if not degenerate(l) and l not in par]
-    lines = [l for l in lines if not (l[0] == 'U' and set(l.split('\t')[2].split(' ')) & dropped)]
+    # sets listing a dropped line go too, and so do the sets listing those, until nothing changes
+    while True:
+        gone = [l for l in lines if l[0] == 'U' and set(l.split('\t')[2].split(' ')) & dropped]
+        if not gone:
+            break
+        dropped |= set(l.split('\t')[1] for l in gone)
+        lines = [l for l in lines if l not in gone]
     return {'kind': 'gfa2', 'doc': lines}
 
 
